@@ -33,4 +33,21 @@ PROPS = {
                     'contracts of compio-buf views (common/buf.vrs) are assumed here and discharged by check C10'],
         'assumptions': [],
     },
+    'C11': {
+        'level': 'proof',
+        'verus': ['c11-loops'],
+        'kani': ['io'],
+        'explanation': 'Verus proves, on the synchronous projection of the real helper bodies (macros expanded), that read_exact(_at), '
+                       'read_to_end(_at), append, write_all(_at) transfer exactly the reference bytes for EVERY schedule of short '
+                       'transfers / Interrupted / errors / EOF allowed by the abstract reader/writer contract, preserve every '
+                       'other byte, and never let Interrupted escape; the real async code and the iterator-based / macro-generated '
+                       'in-memory implementations are checked by bounded Kani harnesses (listed separately).',
+        'trusted': ['A6 synchronous projection (R5): no cancellation of a helper future between two statements; abstract readers/'
+                    'writers obey the stream contract of common/stream.vrs (that IS the quantifier of C11; OS-backed implementors '
+                    'are not proved to obey it)',
+                    'A8 termination is not proved for the Interrupted-retry loops (exec_allows_no_decreases_clause)',
+                    'A3 Vec<u8> is a well-formed root (common/vecroot.vrs: axiom_vec_ok, vshim_vec_capacity/reserve)',
+                    'contracts of compio-buf views (common/buf.vrs) are assumed here and discharged by check C10'],
+        'assumptions': [],
+    },
 }
